@@ -231,6 +231,12 @@ func rulesC11(c *Ctx) {
 			if fx := o.FoldAtExit(r.Results[0], r); fx != nil {
 				ex = fx
 			}
+			ex = rewriteEx(ex, func(x *Ex) *Ex {
+				if x.K == "loopvar" && x.V != nil {
+					return o.FoldAtExit(x.V, r)
+				}
+				return nil
+			})
 			e := ex.String()
 			if got != "" && e != got {
 				return got + " | " + e, false
